@@ -17,6 +17,8 @@ pub struct Lane {
     /// did the property's own trigger occur in this run?
     pub nontrivial: fn(&Scenario, &RunResult) -> bool,
     pub rule: &'static str,
+    /// several runs per index (fault sweeps): returns the cases of this index
+    pub expand: Option<fn(&Lane, u64, u64) -> Vec<Case>>,
     /// runs for the quick / thorough tier
     pub quick: u64,
     pub thorough: u64,
@@ -53,6 +55,12 @@ fn overlap(_sc: &Scenario, rr: &RunResult) -> bool {
 }
 
 pub fn lanes() -> Vec<Lane> {
+    let mut v = lanes_base();
+    v.push(fault_lane());
+    v
+}
+
+fn lanes_base() -> Vec<Lane> {
     vec![Lane {
         prop: "C01",
         family: "MUX",
@@ -61,6 +69,7 @@ pub fn lanes() -> Vec<Lane> {
         check: oracle::check_c01,
         nontrivial: overlap,
         rule: "seeded MUX scenarios (1-5 handles, 1-8 steps each); non-trivial = at least two operations were outstanding at the server at once; distinct = distinct history-shape hash (sequence of event kinds and actors, values abstracted)",
+        expand: None,
         quick: 200_000,
         thorough: 5_000_000,
     },
@@ -72,6 +81,7 @@ pub fn lanes() -> Vec<Lane> {
         check: oracle::check_c10,
         nontrivial: stream_nontrivial,
         rule: "seeded STREAM scenarios (1-2 clients, 1-3 searches each: direct / EntriesOnly / search(), 0-12 items of three kinds, call sequences of up to 16 next/finish/state calls incl. after the end and repeated finish, per-item timeouts in a quarter of the runs); non-trivial = at least one call was made on a stream outside the Active state or a stream was finished before its end; distinct = distinct history-shape hash",
+        expand: None,
         quick: 150_000,
         thorough: 4_000_000,
     },
@@ -83,6 +93,7 @@ pub fn lanes() -> Vec<Lane> {
         check: oracle::check_c13,
         nontrivial: leak_nontrivial,
         rule: "seeded LEAK scenarios (1-3 clients, 1-5 rounds of 1-5 lifecycles each: completed/failed single operations, timeouts with late replies, abandons of finished / timed-out / in-flight operations, search(), direct and adapted streams read to the end / finished early / finished twice / timed out, unsolicited traffic; a barrier and a table snapshot at quiescence after every round); non-trivial = a checkpoint was taken after at least three completed calls; distinct = distinct history-shape hash",
+        expand: None,
         quick: 100_000,
         thorough: 3_000_000,
     },
@@ -94,6 +105,19 @@ pub fn lanes() -> Vec<Lane> {
         check: oracle::check_c05,
         nontrivial: ids_nontrivial,
         rule: "seeded IDS scenarios (2-6 handles, up to 60 operations, counter pre-positioned at 2^31-1-k with k<=64 or elsewhere, up to 40 pre-seeded in-use IDs incl. 1, MAX, low runs and IDs just above the counter; searches kept outstanding while the counter is moved to just below their ID; H3 yield rate up to 1.0); non-trivial = the allocator wrapped around or skipped an in-use ID in this run; distinct = distinct history-shape hash",
+        expand: None,
+        quick: 150_000,
+        thorough: 4_000_000,
+    },
+    Lane {
+        prop: "C12",
+        family: "TIME",
+        gen: gen::gen_time,
+        cfg: cfg_default,
+        check: oracle::check_c12,
+        nontrivial: time_nontrivial,
+        rule: "seeded TIME scenarios (1-3 clients, 1-6 operations each: timed / untimed single operations, search() and streams; timeouts 1 ms - 60 s; reply delays and item gaps at 0, T/2, T-1, T, T+1, 2T, 3T and random around T; silent servers; barriers); non-trivial = at least one call returned a timeout or returned a reply that arrived within 2 ms of its deadline; distinct = distinct history-shape hash",
+        expand: None,
         quick: 150_000,
         thorough: 4_000_000,
     },
@@ -105,6 +129,7 @@ pub fn lanes() -> Vec<Lane> {
         check: oracle::check_c05_mux,
         nontrivial: overlap,
         rule: "MUX scenarios as a by-product: server-side ID checks only; non-trivial = at least two operations outstanding at once",
+        expand: None,
         quick: 50_000,
         thorough: 1_000_000,
     }]
@@ -143,6 +168,10 @@ fn ids_nontrivial(_sc: &Scenario, rr: &RunResult) -> bool {
         }
     }
     false
+}
+
+fn time_nontrivial(_sc: &Scenario, rr: &RunResult) -> bool {
+    rr.hist.iter().any(|e| matches!(&e.kind, EvKind::Return { ret: crate::world::Ret::Err(crate::world::ErrC::Timeout), .. }))
 }
 
 fn cfg_strict_stream(_sc: &Scenario, c: &mut RunCfg) {
@@ -187,14 +216,48 @@ pub fn seeds(verif_seed: u64, family: &str, index: u64) -> Seeds {
     Seeds { run, scenario: mix(&[run, 1]), sched: mix(&[run, 2]), tokio: mix(&[run, 3]) }
 }
 
-/// Execute run `index` of a lane.
-pub fn execute(lane: &Lane, verif_seed: u64, index: u64) -> (Scenario, RunCfg, RunResult) {
+/// One run to perform: scenario, schedule source description and configuration.
+pub struct Case {
+    pub sc: Scenario,
+    /// replay this trace (then continue from `cfg.diverge_seed` once a fault fired) instead of a fresh PRNG
+    pub trace: Option<Vec<u32>>,
+    pub sched_seed: u64,
+    pub cfg: RunCfg,
+    pub label: String,
+}
+
+impl Case {
+    pub fn run(&self) -> RunResult {
+        let sched = match &self.trace {
+            Some(t) => Sched::from_trace(t.clone(), Some(self.sched_seed)),
+            None => Sched::from_seed(self.sched_seed),
+        };
+        runner::run(&self.sc, sched, &self.cfg)
+    }
+}
+
+/// The cases of index `index` of a lane (one, unless the lane expands into a sweep).
+pub fn cases(lane: &Lane, verif_seed: u64, index: u64) -> Vec<Case> {
+    if let Some(f) = lane.expand {
+        return f(lane, verif_seed, index);
+    }
     let s = seeds(verif_seed, lane.family, index);
     let sc = (lane.gen)(s.scenario);
     let mut cfg = RunCfg { tokio_seed: s.tokio, ..Default::default() };
     (lane.cfg)(&sc, &mut cfg);
-    let rr = runner::run(&sc, Sched::from_seed(s.sched), &cfg);
-    (sc, cfg, rr)
+    vec![Case { sc, trace: None, sched_seed: s.sched, cfg, label: String::new() }]
+}
+
+/// Execute case `case` of run `index` of a lane.
+pub fn execute_case(lane: &Lane, verif_seed: u64, index: u64, case: usize) -> (Scenario, RunCfg, RunResult) {
+    let mut cs = cases(lane, verif_seed, index);
+    let c = cs.swap_remove(case.min(cs.len() - 1));
+    let rr = c.run();
+    (c.sc, c.cfg, rr)
+}
+
+pub fn execute(lane: &Lane, verif_seed: u64, index: u64) -> (Scenario, RunCfg, RunResult) {
+    execute_case(lane, verif_seed, index, 0)
 }
 
 /// Shape hash: the history with values abstracted (event kind + actor/label class).
@@ -291,5 +354,136 @@ fn err_tag(e: &crate::world::ErrC) -> u64 {
         AddNoValues => 10,
         LdapResult(_) => 11,
         Other(_) => 12,
+    }
+}
+
+// ---------------------------------------------------------------------------------------------
+// FAULT: fault enumeration over every byte boundary of one exchange
+// ---------------------------------------------------------------------------------------------
+
+pub fn tier() -> String {
+    std::env::var("LDAPSIM_TIER").unwrap_or_else(|_| "quick".into())
+}
+
+fn expand_fault(lane: &Lane, verif_seed: u64, index: u64) -> Vec<Case> {
+    use crate::scenario::{Fault, Hostile, IoKind, Mods, OpSpec, Step};
+    let s = seeds(verif_seed, lane.family, index);
+    let base = (lane.gen)(s.scenario);
+    let cfg0 = || RunCfg { tokio_seed: s.tokio, ..Default::default() };
+    // reference run
+    let rref = runner::run(&base, Sched::from_seed(s.sched), &cfg0());
+    let lc = rref.c2s.len();
+    let ls = rref.s2c.len();
+    let n_emissions = rref.hist.iter().filter(|e| matches!(e.kind, EvKind::SrvEmit { .. })).count();
+    let flushes = rref.stats.counters.get("io.flushes").copied().unwrap_or(0) as usize;
+    let mut out = vec![Case { sc: base.clone(), trace: None, sched_seed: s.sched, cfg: cfg0(), label: "reference".into() }];
+    let thorough = tier() == "thorough";
+    let stride_s = if thorough || ls <= 400 { 1 } else { ls / 400 + 1 };
+    let stride_c = if thorough || lc <= 400 { 1 } else { lc / 400 + 1 };
+    let mut rng = crate::rng::Rng::new(mix(&[s.run, 77]));
+    let mut add = |f: Fault, label: String, fresh: bool, out: &mut Vec<Case>| {
+        let mut sc = base.clone();
+        sc.faults = vec![f];
+        let k = out.len() as u64;
+        if fresh {
+            out.push(Case { sc, trace: None, sched_seed: mix(&[s.sched, k]), cfg: cfg0(), label });
+        } else {
+            let cfg = RunCfg { diverge_seed: Some(mix(&[s.sched, k, 5])), ..cfg0() };
+            out.push(Case { sc, trace: Some(rref.trace.clone()), sched_seed: mix(&[s.sched, k, 6]), cfg, label });
+        }
+    };
+    let kinds = [IoKind::Reset, IoKind::Aborted, IoKind::TimedOut, IoKind::Other, IoKind::BrokenPipe];
+    let mut at = 0;
+    while at <= ls {
+        add(Fault::EofAt { at }, format!("eof@{at}"), false, &mut out);
+        add(Fault::ReadErrAt { at, kind: IoKind::Reset }, format!("reset@{at}"), false, &mut out);
+        if rng.chance(1, 7) {
+            let k = *rng.pick(&kinds);
+            add(Fault::ReadErrAt { at, kind: k }, format!("readerr{:?}@{at}", k), false, &mut out);
+        }
+        if rng.chance(1, 10) {
+            // second pass: same fault under a fresh schedule from the start
+            add(Fault::EofAt { at }, format!("eof@{at}/fresh"), true, &mut out);
+        }
+        at += stride_s;
+    }
+    let mut at = 0;
+    while at <= lc {
+        add(Fault::WriteErrAt { at, kind: IoKind::BrokenPipe }, format!("writeerr@{at}"), false, &mut out);
+        add(Fault::ServerCloseAfter { at }, format!("srvclose@{at}"), false, &mut out);
+        if rng.chance(1, 7) {
+            let k = *rng.pick(&kinds);
+            add(Fault::WriteErrAt { at, kind: k }, format!("writeerr{:?}@{at}", k), false, &mut out);
+        }
+        if rng.chance(1, 10) {
+            add(Fault::WriteErrAt { at, kind: IoKind::Reset }, format!("writeerr@{at}/fresh"), true, &mut out);
+        }
+        at += stride_c;
+    }
+    for nth in 1..=flushes.min(40) {
+        add(Fault::FlushErr { nth, kind: IoKind::BrokenPipe }, format!("flusherr#{nth}"), false, &mut out);
+    }
+    // undecodable frame at every frame boundary
+    for j in 0..n_emissions {
+        let mut sc = base.clone();
+        sc.plan.hostile = Some(Hostile { before_emission: j, class: "not-a-sequence".into(), bytes: vec![0x04, 0x01, 0x00], must_end: true });
+        let k = out.len() as u64;
+        out.push(Case { sc, trace: Some(rref.trace.clone()), sched_seed: mix(&[s.sched, k, 6]), cfg: RunCfg { diverge_seed: Some(mix(&[s.sched, k, 5])), ..cfg0() }, label: format!("undecodable-before-emission#{j}") });
+    }
+    // unbind issued by one handle at every step index; handles dropped at every step index
+    for (ci, cs) in base.clients.iter().enumerate() {
+        if ci + 1 == base.clients.len() {
+            continue; // not the late client
+        }
+        for p in 0..=cs.steps.len() {
+            let mut sc = base.clone();
+            sc.clients[ci].steps.insert(p, Step::Op { token: format!("unbind{ci}_{p}"), op: OpSpec::Unbind, mods: Mods::default(), cancel_after_polls: None });
+            if rng.chance(1, 4) {
+                sc.faults = vec![Fault::ShutdownErr { kind: IoKind::Other }];
+            }
+            let k = out.len() as u64;
+            out.push(Case { sc, trace: None, sched_seed: mix(&[s.sched, k]), cfg: cfg0(), label: format!("unbind@c{ci}p{p}") });
+            let mut sc = base.clone();
+            sc.clients[ci].steps.insert(p, Step::DropHandle);
+            let k = out.len() as u64;
+            out.push(Case { sc, trace: None, sched_seed: mix(&[s.sched, k]), cfg: cfg0(), label: format!("drophandle@c{ci}p{p}") });
+        }
+    }
+    out
+}
+
+fn fault_nontrivial(sc: &Scenario, rr: &RunResult) -> bool {
+    // the fault fired (or unbind / undecodable frame happened) while at least one call was waiting
+    let fired = rr.hist.iter().position(|e| match &e.kind {
+        EvKind::Fault { .. } => true,
+        EvKind::SrvEmit { label, .. } => label == "hostile",
+        EvKind::SrvRecv { kind, .. } => kind == "unbind",
+        _ => false,
+    });
+    let Some(p) = fired else { return false };
+    let _ = sc;
+    let mut pending = 0i32;
+    for e in &rr.hist[..p] {
+        match &e.kind {
+            EvKind::Invoke { .. } => pending += 1,
+            EvKind::Return { ret, .. } if !matches!(ret, crate::world::Ret::State(_) | crate::world::Ret::Probe { .. } | crate::world::Ret::Skipped) => pending -= 1,
+            _ => {}
+        }
+    }
+    pending > 0
+}
+
+pub fn fault_lane() -> Lane {
+    Lane {
+        prop: "C04",
+        family: "FAULT",
+        gen: gen::gen_fault_base,
+        cfg: cfg_default,
+        check: oracle::check_c04,
+        nontrivial: fault_nontrivial,
+        rule: "per index one seeded exchange (1-3 clients x 1-4 operations/streams + one late operation); a fault-free reference run records the request/response byte lengths Lc, Ls and the decision trace; then one run per (kind, offset): EOF and reset at every response byte boundary 0..=Ls, write error and server-close at every request byte boundary 0..=Lc (stride >1 only in the quick tier for L>400), other error kinds and fresh-schedule repeats at a sample, every flush, an undecodable frame before every response frame, unbind and handle drop at every step index; sweep runs replay the reference trace until the fault fires; non-trivial = the fault fired while a call was waiting; distinct = distinct history-shape hash among those",
+        expand: Some(expand_fault),
+        quick: 400,
+        thorough: 12_000,
     }
 }
